@@ -34,7 +34,11 @@ class BeeColonyOptimization(OptimizationAbstract):
         self._config = BeeColonyOptimizationConfig(**parameters)
 
     def before_initialization(self):
-        self._config.population_size = int(self._config.population_size / 2)
+        # half of the colony are employed bees
+        self.__n_employed = int(self._config.population_size / 2)
+
+    def _init_population(self):
+        self._population = self._generate_agents(self.__n_employed)
 
     def _init_agent(self, position: list[float] | np.ndarray | None = None) -> Bee:
         agent = super()._init_agent(position)
@@ -77,7 +81,7 @@ class BeeColonyOptimization(OptimizationAbstract):
             selected_bee = self._population[jdx]
             return food_source_dance(idx, selected_bee)
 
-        population_size = self._config.population_size
+        population_size = self.__n_employed
         dims = self._task.space_dimension
         phi = np.random.uniform(low=-1, high=1, size=dims)
 
